@@ -40,6 +40,22 @@ ASSUMPTIONS = [
     "np.unique / np.isin are modelled by their mathematical meaning (sorted distinct values, membership)",
 ]
 
+# ---- five-flag dispatch (DataVal.v); appended here so that the header above stays as it was
+PARALLEL = True
+RULE += ("; " +
+        "FIVE-FLAG DISPATCH: all 2^5 configs x every declaration state of the sphere / ellipsoid / tracklet / lineage properties (undeclared, declared but absent "
+        "from node_props, stored+valid, stored+invalid; track_node_props None / {} / one key / both keys) on small digraphs (forests with divisions and merges, "
+        "isolated nodes, a cycle now and then, one or two graph faults), REAL missing masks on all four properties with adversarial fill values (an existing "
+        "tracklet / lineage id, a fresh id, a negative radius, a non-PD or non-symmetric matrix), masks only on single-node classes (valid stays valid) / anywhere / "
+        "dropped (fills are read), masks and value arrays of the wrong length; every data case goes to Coq (outcome, exception class AND the raise statement that "
+        "fired), through validate_data and through read_to_memory(store, data_validation=cfg) with the masks stored;")
+EXHAUSTIVE_BLOCKS.append("thorough only: validate_data, all 2^5 configs x all 4x4x(1+6x6) declaration-state combinations of the four properties "
+                         "(one random graph each)")
+ASSUMPTIONS.append(
+    "validate_data: a node whose tracklet / lineage id is flagged missing belongs to no tracklet / lineage but stays in the graph with its edges (docstring of "
+    "_annotated_nodes); the expected verdict is the documented definition on the full graph with such nodes unlabelled; declared-but-absent properties, arrays "
+    "of mismatching lengths and duplicate node ids under the track validators are outside the property text (compared with the model only)")
+
 
 def pairs(alpha):
     return [(a, b) for a in alpha for b in alpha]
@@ -434,6 +450,229 @@ def generate(rng: random.Random, tier: str):
         edges = [[i, i + 1] for i in range(n - 1)] if rng.random() < 0.8 else ([[0, 0]] if n else [])
         yield {"kind": "data", "cfg": cfg, "directed": rng.random() < 0.5, "dt": "uint8", "ids": ids, "edges": edges,
                "axes": axes, "sphere": sphere, "ellipsoid": ell, "track": track}
+    yield from gen_dispatch5(rng, tier)
+
+
+# ---------------------------------------------------------------- dispatch with all five flags (DataVal.v)
+# covariance matrices clearly inside / clearly outside the symmetric positive-definite set, by side
+MATS_PD = {1: [[[2]], [[1]], [[5]]], 2: [[[2, 1], [1, 2]], [[1, 0], [0, 3]], [[5, -2], [-2, 1]]],
+           3: [[[2, -1, 0], [-1, 2, -1], [0, -1, 2]], [[1, 0, 0], [0, 2, 0], [0, 0, 3]]]}
+MATS_NOT_PD = {1: [[[-1]], [[-3]]], 2: [[[1, 2], [2, 1]], [[-1, 0], [0, 2]]],
+               3: [[[1, 2, 0], [2, 1, 0], [0, 0, 1]], [[-2, 0, 0], [0, 1, 0], [0, 0, 1]]]}
+MATS_NOT_SYM = {1: [[[-2]]], 2: [[[1, 2], [0, 1]], [[2, 1], [-1, 2]]], 3: [[[1, 0, 1], [0, 1, 0], [0, 0, 1]]]}
+
+
+def mask_for(rng, n, singles, mode):
+    """a missing mask over n positions: None | only positions in `singles` (masking them keeps a valid annotation valid) | anything"""
+    if mode == "none" or n == 0:
+        return None
+    if mode == "singles":
+        return [i in singles and rng.random() < 0.7 for i in range(n)]
+    if mode == "all":
+        return [True] * n
+    return [rng.random() < 0.35 for _ in range(n)]
+
+
+def fill(rng, vals, mask, pool):
+    """adversarial fill values under the missing flags: an id that exists, a fresh one, 0, -1"""
+    if mask is None:
+        return vals
+    return [rng.choice(pool) if i < len(mask) and mask[i] else v for i, v in enumerate(vals)]
+
+
+def track_props_for(rng, ids, edges, which, state):
+    """the tracklet / lineage property of a graph in the requested state: 'valid' (documented partition; masks only on nodes that form a
+    class of their own), 'masked' (documented partition, any mask: a masked node inside a class or next to one usually invalidates it),
+    'perturbed' (merge / split / move), 'unmasked-fill' (valid with a mask, then the mask dropped so that the fill values are read)"""
+    from harness.c13 import perturb, reference_partition
+
+    n = len(ids)
+    every = list(dict.fromkeys(list(ids) + [x for e in edges for x in e]))
+    if which == "tracklet":
+        part = sorted(reference_partition(every, edges), key=lambda cl: min(cl))
+        part = sorted(set(part) | {frozenset([x]) for x in every if not any(x in cl for cl in part)}, key=lambda cl: min(cl))
+    else:
+        part = sorted(weak_components(every, [tuple(e) for e in edges]), key=lambda cl: min(cl))
+    lab = {x: k for k, cl in enumerate(part) for x in cl}
+    vals = [lab[x] + 3 for x in ids]
+    singles = {i for i, x in enumerate(ids) if len(part[lab[x]]) == 1}
+    if state == "perturbed":
+        vals = [v + 3 for v in perturb(rng, list(ids), [cl & set(ids) for cl in part if cl & set(ids)])] if n else []
+    mode = {"valid": rng.choice(["none", "singles", "singles"]), "masked": rng.choice(["any", "any", "all"]),
+            "perturbed": rng.choice(["none", "singles", "any"]), "unmasked-fill": "singles"}[state]
+    mask = mask_for(rng, n, singles, mode)
+    pool = sorted(set(vals)) + [max(vals, default=0) + 1, 0, -1]
+    vals = fill(rng, vals, mask, pool)
+    if state == "unmasked-fill":
+        mask = None
+    return {"vals": vals, "missing": mask}
+
+
+def small_graph(rng):
+    """ids and edges of a small digraph: forests, chains with divisions / merges, isolated nodes, sometimes a cycle"""
+    n = rng.choice([0, 1, 2, 3, 3, 4, 4, 5, 6])
+    big = rng.random() < 0.1
+    pool = [0, 1, 2**32, 2**53 + 1, 2**63 - 1, 2**63, 2**64 - 1, 97] if big else list(range(12))
+    ids = rng.sample(pool, n)
+    edges = []
+    for j in range(1, n):
+        r = rng.random()
+        if r < 0.65:
+            edges.append([ids[rng.randrange(max(0, j - 2), j)], ids[j]])
+        if r > 0.9:
+            edges.append([ids[rng.randrange(0, j)], ids[j]])
+    if n >= 2 and rng.random() < 0.12:
+        a, b = rng.sample(ids, 2)
+        edges.append([b, a])          # may close a cycle
+    edges = [list(e) for e in dict.fromkeys(map(tuple, edges))]
+    return ids, edges, ("uint64" if big else "uint8")
+
+
+def break_graph(rng, ids, edges):
+    """one graph fault (or two, so that the order of the four graph checks shows)"""
+    ids, edges = list(ids), [list(e) for e in edges]
+    for _ in range(rng.choice([1, 1, 2])):
+        k = rng.choice(["dup", "dangling", "self", "repeat", "reverse"])
+        if k == "dup" and ids:
+            ids.append(rng.choice(ids))
+        elif k == "dangling" and ids:
+            edges.append([rng.choice(ids), 11 if 11 not in ids else 10])
+        elif k == "self" and ids:
+            x = rng.choice(ids)
+            edges.append([x, x])
+        elif k == "repeat" and edges:
+            edges.append(list(rng.choice(edges)))
+        elif k == "reverse" and edges:
+            edges.append(list(reversed(rng.choice(edges))))
+    return ids, edges
+
+
+def shape_props(rng, n, nspace, sph_state, ell_state):
+    sphere = ell = None
+    if sph_state == "absent":
+        sphere = "absent"
+    elif sph_state is not None:
+        mask = [rng.random() < 0.4 for _ in range(n)] if rng.random() < 0.6 else None
+        vals = [rng.choice([0, 1, 2, 7]) for _ in range(n)]
+        if mask is not None:                          # adversarial fill: a negative radius under the missing flag
+            vals = [rng.choice([-1, -5]) if m else v for v, m in zip(vals, mask)]
+        if sph_state == "bad" and n:
+            if rng.random() < 0.25:
+                sphere = {"shape": [n, 2], "vals": [v for v in vals for _ in (0, 1)], "float": rng.random() < 0.5, "missing": mask}
+            else:
+                pos = [i for i in range(n) if mask is None or not mask[i]] or [0]
+                if mask is not None and mask[pos[0]]:
+                    mask[pos[0]] = False
+                vals[rng.choice(pos)] = -2
+        if sphere is None:
+            sphere = {"shape": [n], "vals": vals, "float": rng.random() < 0.5, "missing": mask}
+    if ell_state == "absent":
+        ell = "absent"
+    elif ell_state is not None:
+        side = nspace if nspace else rng.choice([1, 2])
+        mask = [rng.random() < 0.4 for _ in range(n)] if rng.random() < 0.6 else None
+        mats = [rng.choice(MATS_PD[side]) for _ in range(n)]
+        if mask is not None:                          # adversarial fill: a matrix that is not positive-definite / not symmetric
+            mats = [rng.choice(MATS_NOT_PD[side] + MATS_NOT_SYM[side]) if m else a for a, m in zip(mats, mask)]
+        shape = [n, side, side]
+        if ell_state == "bad" and n:
+            kind = rng.choice(["notpd", "notsym", "both", "side", "rect"])
+            pos = [i for i in range(n) if mask is None or not mask[i]] or [0]
+            if mask is not None and mask[pos[0]]:
+                mask[pos[0]] = False
+            if kind in ("notpd", "both"):
+                mats[rng.choice(pos)] = rng.choice(MATS_NOT_PD[side])
+            if kind in ("notsym", "both"):
+                mats[rng.choice(pos)] = rng.choice(MATS_NOT_SYM[side])
+            if kind == "side":
+                other = side % 3 + 1
+                mats, shape = [rng.choice(MATS_PD[other]) for _ in range(n)], [n, other, other]
+            if kind == "rect":
+                mats, shape = [[row + [0] for row in a] for a in mats], [n, side, side + 1]
+        ell = {"shape": shape, "mats": mats, "missing": mask}
+    return sphere, ell
+
+
+def gen_dispatch5(rng, tier):
+    """validate_data as a whole: all 2^5 configs x every declaration state of the four properties (undeclared / declared but absent from
+    node_props / stored and valid on the non-missing entries / stored and invalid), real missing masks with adversarial fill values,
+    track_node_props None / {} / one key / both keys, graphs that fail one or two of the graph checks"""
+    states = [None, "absent", "ok", "bad"]
+    tstates = [None, "absent", "valid", "masked", "perturbed", "unmasked-fill"]
+    # systematic block: every config x every combination of declaration states, on a fixed family of graphs
+    combos = [(a, b, tk, ln, tr) for a in states for b in states
+              for tr in ("none", "dict") for tk in (tstates if tr == "dict" else [None]) for ln in (tstates if tr == "dict" else [None])]
+    for ci in range(32):
+        cfg = [bool(ci >> b & 1) for b in range(5)]
+        for a, b, tk, ln, tr in combos:
+            if tier == "quick" and rng.random() > 0.07:
+                continue
+            yield dispatch5_case(rng, cfg, a, b, tk, ln, tr, broken=rng.random() < 0.15)
+    # random block: declared states biased towards stored properties, array lengths that do not match now and then
+    for _ in range(1200 if tier == "quick" else 12000):
+        cfg = [rng.random() < 0.6 for _ in range(5)]
+        tr = rng.choice(["none", "dict", "dict", "dict", "dict"])
+        wt = [1, 1, 6, 4]
+        wtt = [2, 1, 6, 5, 5, 2]
+        c = dispatch5_case(rng, cfg, rng.choices(states, wt)[0], rng.choices(states, wt)[0],
+                           rng.choices(tstates, wtt)[0] if tr == "dict" else None, rng.choices(tstates, wtt)[0] if tr == "dict" else None,
+                           tr, broken=rng.random() < 0.2)
+        if rng.random() < 0.06:
+            misfit(rng, c)
+        yield c
+    # track-focused block: graph / sphere / ellipsoid valid or undeclared, so that the tracklet and lineage branches are reached
+    for _ in range(1500 if tier == "quick" else 15000):
+        cfg = [rng.random() < 0.4, rng.random() < 0.4, rng.random() < 0.4, rng.random() < 0.75, rng.random() < 0.75]
+        wtt = [1, 0, 6, 5, 5, 2]
+        c = dispatch5_case(rng, cfg, rng.choice([None, "ok"]), rng.choice([None, "ok"]), rng.choices(tstates, wtt)[0], rng.choices(tstates, wtt)[0],
+                           "dict", broken=False, nspace_min=1)
+        if rng.random() < 0.1:                       # a broken graph with graph validation off: the track validators see it
+            c["cfg"][0] = False
+            c["ids"], c["edges"] = break_graph(rng, c["ids"], c["edges"])
+            for k in ("tracklet", "lineage"):        # keep the arrays aligned with the (possibly longer) id array
+                tp = c["track"][k]
+                if isinstance(tp, dict):
+                    extra = len(c["ids"]) - len(tp["vals"])
+                    tp["vals"] = tp["vals"] + [rng.choice(tp["vals"] + [99]) for _ in range(extra)]
+                    if tp["missing"] is not None:
+                        tp["missing"] = tp["missing"] + [rng.random() < 0.3 for _ in range(extra)]
+            for k in ("sphere", "ellipsoid"):
+                c[k] = None
+        yield c
+
+
+def dispatch5_case(rng, cfg, sph_state, ell_state, tk_state, ln_state, tr, broken, nspace_min=0):
+    ids, edges, dt = small_graph(rng)
+    if broken:
+        ids, edges = break_graph(rng, ids, edges)
+    n = len(ids)
+    nspace = max(nspace_min, rng.choice([0, 1, 2, 2, 3]))
+    axes = ["space"] * nspace + (["time"] if rng.random() < 0.4 else [])
+    rng.shuffle(axes)
+    sphere, ell = shape_props(rng, n, nspace, sph_state, ell_state)
+    track = None
+    if tr == "dict":
+        track = {"dict": True}
+        for k, st in (("tracklet", tk_state), ("lineage", ln_state)):
+            track[k] = None if st is None else "absent" if st == "absent" else track_props_for(rng, ids, edges, k, st)
+    return {"kind": "data", "d5": True, "cfg": cfg, "directed": rng.random() < 0.7, "dt": dt, "ids": ids, "edges": edges, "axes": axes,
+            "sphere": sphere, "ellipsoid": ell, "track": track, "states": [sph_state, ell_state, tk_state, ln_state, tr, broken]}
+
+
+def misfit(rng, c):
+    """a missing mask / value array whose length differs from the number of nodes (numpy: IndexError; zip: truncation)"""
+    n = len(c["ids"])
+    k = rng.choice(["sphere", "ellipsoid", "tracklet", "lineage"])
+    tgt = c[k] if k in ("sphere", "ellipsoid") else (c["track"] or {}).get(k)
+    if not isinstance(tgt, dict) or n == 0:
+        return
+    if k in ("sphere", "ellipsoid") or rng.random() < 0.5:
+        tgt["missing"] = [rng.random() < 0.3 for _ in range(n + rng.choice([-1, 1, 2]))]
+    else:
+        tgt["vals"] = (tgt["vals"] + [tgt["vals"][0]])[: n + rng.choice([-1, 1])]
+        if rng.random() < 0.5:
+            tgt["missing"] = None
+    c["states"] = c["states"] + ["misfit:" + k]
 
 
 # ---------------------------------------------------------------- implementation
@@ -444,12 +683,16 @@ def build_geff(c):
     node_props = {}
     axes = [Axis(name=f"a{i}", type=t) for i, t in enumerate(c["axes"])] or None
     sphere = ell = None
-    if c["sphere"] is not None:
+    if c["sphere"] == "absent":        # declared in the metadata, no such key in node_props
+        sphere = "r"
+    elif c["sphere"] is not None:
         s = c["sphere"]
         node_props["r"] = {"values": np.array([radius_value(v) for v in s["vals"]], dtype="float64" if s["float"] else "int64").reshape(s["shape"]),
                            "missing": None if s["missing"] is None else np.array(s["missing"], dtype=bool)}
         sphere = "r"
-    if c["ellipsoid"] is not None:
+    if c["ellipsoid"] == "absent":
+        ell = "cov"
+    elif c["ellipsoid"] is not None:
         e = c["ellipsoid"]
         node_props["cov"] = {"values": np.array(e["mats"], dtype="float64").reshape(e["shape"]),
                              "missing": None if e["missing"] is None else np.array(e["missing"], dtype=bool)}
@@ -458,14 +701,58 @@ def build_geff(c):
     if c["track"] is not None:
         track = {}
         for k in ("tracklet", "lineage"):
-            if c["track"][k] is not None:
-                node_props[k] = {"values": np.array(c["track"][k], dtype="int64"), "missing": None}
+            tp = track_prop(c, k)
+            if tp == "absent":
                 track[k] = k
-        track = track or None
+            elif tp is not None:
+                node_props[k] = {"values": np.array(tp["vals"], dtype="int64"),
+                                 "missing": None if tp["missing"] is None else np.array(tp["missing"], dtype=bool)}
+                track[k] = k
+        if not c["track"].get("dict"):      # {"dict": True}: keep an empty track_node_props dict (same behaviour as None)
+            track = track or None
     md = GeffMetadata(directed=c["directed"], axes=axes, node_props_metadata={}, edge_props_metadata={},
                       sphere=sphere, ellipsoid=ell, track_node_props=track)
     return {"metadata": md, "node_ids": np.array(c["ids"], dtype=c["dt"]),
             "edge_ids": np.array(c["edges"], dtype=c["dt"]).reshape(-1, 2), "node_props": node_props, "edge_props": {}}
+
+
+def track_prop(c, k):
+    """None (key not in track_node_props) | "absent" (declared, not in node_props) | {"vals": [...], "missing": [...] | None}"""
+    tr = c.get("track")
+    if tr is None or tr.get(k) is None:
+        return None
+    v = tr[k]
+    if isinstance(v, list):             # older case format: values without a mask
+        return {"vals": v, "missing": None}
+    return v
+
+
+# which raise statement fired, from the message (DataVal.fault)
+FAULTS = [("Some node ids are not unique", "(FGraph FNonUnique)"), ("Some edges are missing nodes", "(FGraph FMissingNodes)"),
+          ("Self edges found", "(FGraph FSelfEdge)"), ("Repeated edges found", "(FGraph FRepeated)"),
+          ("Sphere radius values must be 1D", "FSphereDim"), ("Sphere radius values must be non-negative", "FSphereNeg"),
+          ("Must define space axes", "FEllNoSpace"), ("must have 3 dimensions", "FEllDim"),
+          ("Spatial dimensions of covariance matrix must be equal", "FEllSquare"), ("spatial dimensions, got", "FEllSide"),
+          ("must be symmetric", "FEllSym"), ("must be positive-definite", "FEllPD"),
+          ("Found invalid tracklets", "FTracklets"), ("Found invalid lineages", "FLineages")]
+FAULT_GROUP = {"(FGraph FNonUnique)": "graph", "(FGraph FMissingNodes)": "graph", "(FGraph FSelfEdge)": "graph", "(FGraph FRepeated)": "graph",
+               "FSphereDim": "sphere", "FSphereNeg": "sphere", "FEllNoSpace": "ellipsoid", "FEllDim": "ellipsoid", "FEllSquare": "ellipsoid",
+               "FEllSide": "ellipsoid", "FEllSym": "ellipsoid", "FEllPD": "ellipsoid", "FTracklets": "tracklet", "FLineages": "lineage"}
+GRAPH_PROBLEM = {"(FGraph FNonUnique)": "nonunique", "(FGraph FMissingNodes)": "missing-nodes", "(FGraph FSelfEdge)": "self",
+                 "(FGraph FRepeated)": "repeated"}
+
+
+def fault_of(ex):
+    if isinstance(ex, KeyError):
+        return "FKey"
+    if isinstance(ex, IndexError):
+        return "FIndex"
+    if isinstance(ex, ValueError):
+        text = " ".join(str(a) for a in ex.args)
+        for pat, f in FAULTS:
+            if pat in text:
+                return f
+    return "FUnknown"
 
 
 def run_impl(c):
@@ -491,12 +778,12 @@ def run_impl(c):
             g, s, e, l, t = c["cfg"]
             cfg = ValidationConfig(graph=g, sphere=s, ellipsoid=e, lineage=l, tracklet=t)
             mem = build_geff(c)
-            via = via_store(mem, cfg)
+            via, via_fault = via_store5(mem, cfg)
             try:
                 validate_data(mem, cfg)
-                return ["ok", "", via]
+                return ["ok", "", via, "", via_fault]
             except Exception as ex:
-                return ["err", exn_name(ex), via]
+                return ["err", exn_name(ex), via, fault_of(ex), via_fault]
     except Exception as ex:
         return ["err", exn_name(ex)]
     raise ValueError(k)
@@ -522,6 +809,25 @@ def via_store(mem, cfg):
         return exn_name(ex)
 
 
+def via_store5(mem, cfg):
+    """via_store with the raise statement that fired: (None, None) | ("ok", "") | (exception class, fault)"""
+    from zarr.storage import MemoryStore
+
+    from geff.core_io import read_to_memory, write_arrays
+
+    st = MemoryStore()
+    try:
+        write_arrays(st, mem["node_ids"], mem["node_props"], mem["edge_ids"], mem["edge_props"], mem["metadata"], structure_validation=False)
+        read_to_memory(st)
+    except Exception:
+        return None, None
+    try:
+        read_to_memory(st, data_validation=cfg)
+        return "ok", ""
+    except Exception as ex:
+        return exn_name(ex), fault_of(ex)
+
+
 # ---------------------------------------------------------------- Coq terms
 def cedges(es):
     return clist(es, lambda e: f"({cz(e[0])}, {cz(e[1])})")
@@ -536,15 +842,15 @@ def shapes_oracle_only(c):
     PSD covariance matrices outside the float-exact families (verdict = sign of a rounding error; open finding)"""
     if c["kind"] != "data":
         return False
-    if c["sphere"] is not None and any(isinstance(v, str) and v == "nan" for v in c["sphere"]["vals"]):
+    if isinstance(c["sphere"], dict) and any(isinstance(v, str) and v == "nan" for v in c["sphere"]["vals"]):
         return True
     e = c["ellipsoid"]
-    return e is not None and len(e["shape"]) == 3 and e["shape"][1] == e["shape"][2] and any(ambiguous(M) for M in e["mats"])
+    return isinstance(e, dict) and len(e["shape"]) == 3 and e["shape"][1] == e["shape"][2] and any(ambiguous(M) for M in e["mats"])
 
 
 def sphere_rows_scaled(s, rows):
     """float radii are multiples of 1/4 (the generator's only fractions): the model gets 4 * radius, -0.0 as 0"""
-    if not s["float"]:
+    if not s.get("float"):
         return rows
     out = [Fraction(radius_value(v)) * RADIUS_SCALE for v in rows]
     assert all(x.denominator == 1 for x in out)
@@ -564,9 +870,8 @@ def coq_case(c, o):
     elif k == "repeated":
         inp = f"IRepeated {cedges(c['edges'])}"
     else:
-        if c["cfg"][3] or c["cfg"][4]:
-            if c["track"] is not None:
-                return None  # lineage / tracklet dispatch is modelled in C13/C14; oracle-only here
+        if not old_model_case(c):
+            return coq_case5(c, o)       # the whole of validate_data (DataVal.v): every config, every declaration state
         cfg = f"{{| c_graph := {cbool(c['cfg'][0])}; c_sphere := {cbool(c['cfg'][1])}; c_ellipsoid := {cbool(c['cfg'][2])} |}}"
         sph = "None"
         if c["sphere"] is not None:
@@ -600,6 +905,64 @@ def coq_case(c, o):
     else:
         ob = f"OEs {cbool(o[1])} {cedges(o[2])}"
     return f"({inp}, {ob})"
+
+
+def old_model_case(c):
+    """One in three of the cases that the three-flag model (GraphVal.validate_data, IData) can express -- no lineage / tracklet flag
+    with a declared track property, nothing declared-but-absent, masks of the right length -- keeps going to that model, so that it
+    stays tied to the code; every other data case goes to the five-flag model (IData5), with the raise statement compared."""
+    import json
+    import zlib
+
+    if c.get("d5"):
+        return False
+    if (c["cfg"][3] or c["cfg"][4]) and c["track"] is not None:
+        return False
+    n = len(c["ids"])
+    for k in ("sphere", "ellipsoid"):
+        if c[k] == "absent":
+            return False
+        if c[k] is not None and c[k]["missing"] is not None and len(c[k]["missing"]) != n:
+            return False
+    return zlib.crc32(json.dumps(c, sort_keys=True, default=str).encode()) % 3 == 0
+
+
+def cdecl(x, f):
+    return "Undeclared" if x is None else "Absent" if x == "absent" else f"(Present {f(x)})"
+
+
+def csphere(s):
+    rows = s["vals"] if len(s["shape"]) == 1 else s["vals"][::2]      # 2-D radii: only the rank matters; give the first column
+    rows = sphere_rows_scaled(s, rows)
+    return f"({cnat(len(s['shape']))}, {clist(rows, cz)}, {copt(s['missing'], lambda m: clist(m, cbool))})"
+
+
+def cellipsoid(e):
+    sh = e["shape"]
+    nd = len(sh)
+    r = sh[1] if nd >= 2 else 0
+    cc = sh[2] if nd >= 3 else 0
+    mats = e["mats"] if nd == 3 else [[] for _ in e["mats"]]
+    return f"({cnat(nd)}, {cnat(r)}, {cnat(cc)}, {clist(mats, cmat)}, {copt(e['missing'], lambda m: clist(m, cbool))})"
+
+
+def ctprop(tp):
+    return f"{{| tp_values := {clist(tp['vals'], cz)}; tp_missing := {copt(tp['missing'], lambda m: clist(m, cbool))} |}}"
+
+
+def coq_case5(c, o):
+    g, s, e, l, t = c["cfg"]
+    cfg = (f"{{| c5_graph := {cbool(g)}; c5_sphere := {cbool(s)}; c5_ellipsoid := {cbool(e)}; "
+           f"c5_lineage := {cbool(l)}; c5_tracklet := {cbool(t)} |}}")
+    if c["track"] is None:
+        track = "None"
+    else:
+        track = f"(Some ({cdecl(track_prop(c, 'tracklet'), ctprop)}, {cdecl(track_prop(c, 'lineage'), ctprop)}))"
+    d = (f"{{| e_directed := {cbool(c['directed'])}; e_ids := {clist(c['ids'], cz)}; e_edges := {cedges(c['edges'])}; "
+         f"e_spatial := {cnat(sum(1 for a in c['axes'] if a == 'space'))}; e_sphere := {cdecl(c['sphere'], csphere)}; "
+         f"e_ellipsoid := {cdecl(c['ellipsoid'], cellipsoid)}; e_track := {track} |}}")
+    ob = "OData5 (Ok tt) None" if o[0] == "ok" else f"OData5 (Err {o[1]}) (Some {o[3] if len(o) > 3 else 'FUnknown'})"
+    return f"(IData5 {cfg} {d}, {ob})"
 
 
 # ---------------------------------------------------------------- oracle (from the property text)
@@ -667,6 +1030,111 @@ def ellipsoid_fault(e, axes, o=None):
     return "ellipsoid-singular-rounding" if rounding else None
 
 
+def weak_components(nodes, edges):
+    """weakly connected components by breadth-first search over an undirected adjacency map (independent of the union-find of
+    harness.tracks_gen.components and of networkx)"""
+    adj = {x: set() for x in nodes}
+    for a, b in edges:
+        adj.setdefault(a, set()).add(b)
+        adj.setdefault(b, set()).add(a)
+    seen, comps = set(), []
+    for x in adj:
+        if x in seen:
+            continue
+        comp, todo = {x}, [x]
+        while todo:
+            y = todo.pop()
+            for z in adj[y]:
+                if z not in comp:
+                    comp.add(z)
+                    todo.append(z)
+        seen |= comp
+        comps.append(frozenset(comp))
+    return set(comps)
+
+
+def track_verdict(c, which):
+    """'accept' / 'reject' of the tracklet or lineage annotation, from the documented definitions (docs/tracking.md) on the nodes whose id
+    is NOT flagged missing -- a node whose id is missing belongs to no tracklet / lineage but stays in the graph with its edges --
+    or 'undefined' where the documents say nothing (declared but not stored, array lengths that do not match, duplicate node ids)."""
+    from harness.c13 import is_maximal_unbranched_path, reference_partition
+
+    tp = track_prop(c, which)
+    ids, n = c["ids"], len(c["ids"])
+    if tp == "absent" or len(tp["vals"]) != n or (tp["missing"] is not None and len(tp["missing"]) != n) or len(set(ids)) != n:
+        return "undefined"
+    edges = [tuple(x) for x in c["edges"]]
+    every = list(dict.fromkeys(list(ids) + [x for ed in edges for x in ed]))     # the graph: listed nodes and every id an edge mentions
+    miss = tp["missing"] or [False] * n
+    classes = {}
+    for x, v, m in zip(ids, tp["vals"], miss):
+        if not m:
+            classes.setdefault(v, []).append(x)
+    if which == "lineage":
+        comps = weak_components(every, edges)
+        return "accept" if all(frozenset(ns) in comps for ns in classes.values()) else "reject"
+    ref = reference_partition(every, edges)
+    bad = [tid for tid, ns in classes.items() if frozenset(ns) not in ref]
+    bad2 = [tid for tid, ns in classes.items() if not is_maximal_unbranched_path(ns, every, edges)]
+    if bad != bad2:
+        raise AssertionError(f"harness: the two readings of the documented tracklet definition disagree on {c}: {bad} vs {bad2}")
+    return "reject" if bad else "accept"
+
+
+def data_expectation(c):
+    """{validator: 'accept' | 'reject' | 'undefined'} for the validators that are ENABLED and whose property is DECLARED"""
+    g, s, e, l, t = c["cfg"]
+    n = len(c["ids"])
+    exp = {}
+    if g:
+        exp["graph"] = "reject" if graph_problems(c) else "accept"
+    for flag, key, valid in ((s, "sphere", lambda: sphere_valid(c["sphere"])), (e, "ellipsoid", lambda: ellipsoid_valid(c["ellipsoid"], c["axes"]))):
+        if flag and c[key] is not None:
+            if c[key] == "absent" or (c[key]["missing"] is not None and len(c[key]["missing"]) != n):
+                exp[key] = "undefined"
+            else:
+                exp[key] = "accept" if valid() else "reject"
+    if c["track"] is not None:
+        for flag, key in ((t, "tracklet"), (l, "lineage")):
+            if flag and track_prop(c, key) is not None:
+                exp[key] = track_verdict(c, key)
+    return exp
+
+
+def oracle_data(c, o):
+    exp = data_expectation(c)
+    rejecting = [k for k, v in exp.items() if v == "reject"]
+    undefined = [k for k, v in exp.items() if v == "undefined"]
+    tags = {"kind": "data", "directed": c["directed"]}
+    ell_kind = ellipsoid_fault(c["ellipsoid"], c["axes"], o) if exp.get("ellipsoid") == "reject" else None   # also feeds ORACLE_STATS
+    if o[0] == "ok" and rejecting:
+        first = ell_kind if rejecting[0] == "ellipsoid" and ell_kind else rejecting[0]
+        return Failure(c, o, f"validate_data accepts although {rejecting} must reject" + (f" ({graph_problems(c)})" if "graph" in rejecting else ""),
+                       dict(tags, why="accepts:" + first))
+    if len(o) > 2 and o[2] is not None and (o[2] != ("ok" if o[0] == "ok" else o[1]) or (len(o) > 4 and o[4] != o[3])):
+        return Failure(c, o, f"read_to_memory(store, data_validation=cfg) gives {o[2]} {o[4] if len(o) > 4 else ''} but validate_data on the same "
+                       f"graph gives {o[0] if o[0] == 'ok' else o[1]} {o[3] if len(o) > 3 else ''}", dict(tags, why="wiring-read"))
+    if o[0] == "err":
+        fault = o[3] if len(o) > 3 else "FUnknown"
+        group = FAULT_GROUP.get(fault)
+        if not exp:
+            return Failure(c, o, f"no validator is enabled with a declared property, but validate_data raised {o[1]} ({fault})",
+                           dict(tags, why="rejects-valid"))
+        if group is None:
+            if not undefined:
+                return Failure(c, o, f"validate_data raised {o[1]} ({fault})", dict(tags, why="exception-class"))
+            return None
+        if o[1] != "ValueError":
+            return Failure(c, o, f"validate_data raised {o[1]}", dict(tags, why="exception-class"))
+        if group not in exp:
+            return Failure(c, o, f"the {group} validator raised although it is not enabled / its property is not declared", dict(tags, why="disabled-raises"))
+        if exp[group] == "accept":
+            return Failure(c, o, f"the {group} validator rejects valid data ({fault})", dict(tags, why="rejects-valid:" + group))
+        if group == "graph" and GRAPH_PROBLEM[fault] not in graph_problems(c):
+            return Failure(c, o, f"graph validation reports {fault} but the problems are {graph_problems(c)}", dict(tags, why="wrong-message"))
+    return None
+
+
 def oracle(c, o):
     k = c["kind"]
     if o[0] == "err" and k != "data":
@@ -690,28 +1158,7 @@ def oracle(c, o):
         if o[1] != (not exp) or sorted(map(tuple, o[2])) != exp or len(o[2]) != len(exp):
             return Failure(c, o, f"repeated edges: expected ({not exp}, {exp})", {"kind": k, "why": "verdict-or-offenders"})
     elif k == "data":
-        g, s, e, l, t = c["cfg"]
-        must_fail = []
-        if g and graph_problems(c):
-            must_fail.append("graph:" + ",".join(graph_problems(c)))
-        if s and c["sphere"] is not None and not sphere_valid(c["sphere"]):
-            must_fail.append("sphere")
-        if e and c["ellipsoid"] is not None and not ellipsoid_valid(c["ellipsoid"], c["axes"]):
-            must_fail.append(ellipsoid_fault(c["ellipsoid"], c["axes"], o))
-        tr = c["track"] or {}
-        track_may_fail = (l and tr.get("lineage") is not None) or (t and tr.get("tracklet") is not None)
-        if o[0] == "ok" and must_fail:
-            return Failure(c, o, f"validate_data accepts although {must_fail}", {"kind": "data", "why": "accepts:" + must_fail[0].split(":")[0],
-                                                                                  "directed": c["directed"]})
-        if len(o) > 2 and o[2] is not None and o[2] != ("ok" if o[0] == "ok" else o[1]):
-            return Failure(c, o, f"read_to_memory(store, data_validation=cfg) gives {o[2]} but validate_data on the same graph gives "
-                           f"{o[0] if o[0] == 'ok' else o[1]}", {"kind": "data", "why": "wiring-read"})
-        if o[0] == "err":
-            if o[1] != "ValueError":
-                return Failure(c, o, f"validate_data raised {o[1]}", {"kind": "data", "why": "exception-class"})
-            if not must_fail and not track_may_fail:
-                what = "valid data" if any((g, s, e)) else "no validator enabled/declared"
-                return Failure(c, o, f"validate_data rejects {what}", {"kind": "data", "why": "rejects-valid"})
+        return oracle_data(c, o)
     return None
 
 
@@ -719,11 +1166,37 @@ def nontrivial(c, o):
     return bool(c.get("ids") or c.get("edges"))
 
 
+_STATS: dict = {}
+
+
+def _count_data(c, o):
+    def bump(k):
+        _STATS[k] = _STATS.get(k, 0) + 1
+    bump("data_cases")
+    bump("data_to_five_flag_model" if not old_model_case(c) else "data_to_three_flag_model")
+    if c["cfg"][3] or c["cfg"][4]:
+        bump("data_with_track_flag")
+        if c["track"] is not None and (track_prop(c, "tracklet") is not None or track_prop(c, "lineage") is not None):
+            bump("data_with_track_flag_and_declared_track_property")
+    for k in ("tracklet", "lineage"):
+        tp = track_prop(c, k)
+        if isinstance(tp, dict) and tp["missing"] is not None and any(tp["missing"]):
+            bump(f"{k}_property_with_real_mask")
+    bump("data_outcome_" + (o[3] if o[0] == "err" and len(o) > 3 else o[0]))
+    if len(o) > 2 and o[2] is not None:
+        bump("data_also_through_read_to_memory")
+
+
+def extra_coverage():
+    return {"dispatch_block": dict(sorted(_STATS.items()))}
+
+
 def describe(c, o):
     k = c["kind"]
     if k == "data":
+        _count_data(c, o)
         return (f"data:cfg={''.join('1' if b else '0' for b in c['cfg'])}:sph={'y' if c['sphere'] else 'n'}:"
-                f"ell={'y' if c['ellipsoid'] else 'n'}:{o[0]}")
+                f"ell={'y' if c['ellipsoid'] else 'n'}:trk={'n' if c['track'] is None else 'y'}:{o[0]}")
     return f"{k}:{c['dt']}:n={len(c.get('edges', c.get('ids', [])))}"
 
 
